@@ -1116,6 +1116,17 @@ mod verif_deflate_core {
         let mut i = 0;
         while i < src.len() { dst[i] = src[i]; i += 1; }
     }
+    /// Same all-zero initial window / hash tables as HashBuffers::default(), but allocated as Box::new([0; N]):
+    /// CBMC constant-folds reads at concrete positions from such an object, and does NOT from the
+    /// vec![0; N].into_boxed_slice().try_into() objects of the real constructor (measured: a loop bounded by such a
+    /// byte unwinds to the bound). The state is identical; only the allocation route differs.
+    macro_rules! concrete_window {
+        ($dict:expr) => {{
+            $dict.b.dict = Box::new([0u8; LZ_DICT_FULL_SIZE]);
+            $dict.b.next = Box::new([0u16; LZ_DICT_SIZE]);
+            $dict.b.hash = Box::new([0u16; LZ_DICT_SIZE]);
+        }};
+    }
     const FASTCAP_CONCRETE_SIZE: bool = false;
     /// element-wise re-statements of DictOxide::read_unaligned_u32/u64 (the real ones go through slice -> array
     /// conversions that cost CBMC seconds per call on the 33 KiB window and defeat constant propagation);
@@ -1152,6 +1163,7 @@ mod verif_deflate_core {
     }
     fn fast_cap_body(dist: usize) {
         let mut d = any_compressor!();
+        concrete_window!(d.dict);
         kani::assume(d.params.flags & TDEFL_FORCE_ALL_RAW_BLOCKS == 0);
         let src: usize = 1000;
         let pos0: usize = src + dist;
@@ -1196,16 +1208,12 @@ mod verif_deflate_core {
     #[kani::stub(LZOxide::write_code, model_write_code)]
     #[kani::stub(flush_block, model_flush_block_pending)]
     #[kani::stub(<[u8]>::copy_from_slice, model_copy_from_slice)]
-    #[kani::stub(DictOxide::read_unaligned_u32, model_read_u32_exact)]
-    #[kani::stub(DictOxide::read_unaligned_u64, model_read_u64_exact)]
     fn k_fast_cap_300() { fast_cap_body(300); }
     #[kani::proof]
     #[kani::unwind(34)]
     #[kani::stub(LZOxide::write_code, model_write_code)]
     #[kani::stub(flush_block, model_flush_block_pending)]
     #[kani::stub(<[u8]>::copy_from_slice, model_copy_from_slice)]
-    #[kani::stub(DictOxide::read_unaligned_u32, model_read_u32_exact)]
-    #[kani::stub(DictOxide::read_unaligned_u64, model_read_u64_exact)]
     fn k_fast_cap_5000() { fast_cap_body(5000); }
 
     // ------------------------------------------------------------------
@@ -1336,17 +1344,6 @@ mod verif_deflate_core {
     //   match symbolic. Contract (the one model_find_match hands to compress_normal): the result is the incoming
     //   pair or a strictly longer match that is REAL data at a distance in 1..=max_dist.
     // ------------------------------------------------------------------
-    /// Same all-zero initial window / hash tables as HashBuffers::default(), but allocated as Box::new([0; N]):
-    /// CBMC constant-folds reads at concrete positions from such an object, and does NOT from the
-    /// vec![0; N].into_boxed_slice().try_into() objects of the real constructor (measured: a loop bounded by such a
-    /// byte unwinds to the bound). The state is identical; only the allocation route differs.
-    macro_rules! concrete_window {
-        ($dict:expr) => {{
-            $dict.b.dict = Box::new([0u8; LZ_DICT_FULL_SIZE]);
-            $dict.b.next = Box::new([0u16; LZ_DICT_SIZE]);
-            $dict.b.hash = Box::new([0u16; LZ_DICT_SIZE]);
-        }};
-    }
     #[kani::proof]
     #[kani::unwind(34)]
     fn k_find_match_chain() {
